@@ -41,6 +41,14 @@ fn gen_surface(rng: &mut Rng) -> String {
             2 => format!("{}\u{feff}", rng.pick(ALPHABET)),
             _ => format!("a{}b", rng.pick(&['\u{85}', '\u{2028}', '\u{b}', '\u{c}'])),
         },
+        // characters that other corpus formats give a meaning: '#' (comment lines), U+FFFD (the
+        // replacement character of lossy decoders), '*' and ';' at the start of a surface
+        3 if rng.chance(1, 2) => match rng.below(4) {
+            0 => format!("#{}", rng.pick(ALPHABET)),
+            1 => "# S-ID:1".to_string(),
+            2 => format!("{}\u{fffd}", rng.pick(ALPHABET)),
+            _ => format!("{}x", rng.pick(&['*', ';', '%'])),
+        },
         // an empty surface (a sentence whose surfaces are all empty has no text and is dropped)
         12 | 13 => String::new(),
         _ => {
@@ -399,7 +407,7 @@ impl Scenario for CorpusScenario {
     fn describe(&self) -> ScenarioInfo {
         ScenarioInfo {
             level: "exploration",
-            rule: "one seeded run = a seeded corpus in the documented format (0-5 sentences, token-less sentences, surfaces/features with commas, quotes, 'EOS' and blanks, optional missing final newline) parsed through short-read/EINTR readers, every example written back through short-write/EINTR sinks (bytes must equal the canonical re-serialisation of a harness-side reference parse; re-parsing must give the same examples); Example::write with a hard sink fault at a seeded offset must return Err; Corpus::from_reader with a hard reader fault must return Err; a corpus with one malformed line (no tab, two tabs, blank, 'EOS ' , 'eos') must be rejected; in one run out of four a seeded dictionary tokenizes 1-5 tab-free single-line sentences, the mirrored tokenize loop prints them MeCab-style and the corpus parser must return exactly the tokenizer's (surface, feature) lists. Added later: 1 token in 400 makes a line of 8 KiB/16 KiB/64 KiB +-3 bytes or up to 40 KB; surfaces with U+FEFF at either end, U+0085, U+2028, VT, FF; sinks handed over by &mut or by value inside BufWriter (8 KiB or 16 bytes)/LineWriter adapters that the callee owns. distinct_nontrivial = distinct plan hashes of runs with >= 1 comparison",
+            rule: "one seeded run = a seeded corpus in the documented format (0-5 sentences, token-less sentences, surfaces/features with commas, quotes, 'EOS' and blanks, optional missing final newline) parsed through short-read/EINTR readers, every example written back through short-write/EINTR sinks (bytes must equal the canonical re-serialisation of a harness-side reference parse; re-parsing must give the same examples); Example::write with a hard sink fault at a seeded offset must return Err; Corpus::from_reader with a hard reader fault must return Err; a corpus with one malformed line (no tab, two tabs, blank, 'EOS ' , 'eos') must be rejected; in one run out of four a seeded dictionary tokenizes 1-5 tab-free single-line sentences, the mirrored tokenize loop prints them MeCab-style and the corpus parser must return exactly the tokenizer's (surface, feature) lists. Added later: 1 token in 400 makes a line of 8 KiB/16 KiB/64 KiB +-3 bytes or up to 40 KB; surfaces with U+FEFF at either end, U+0085, U+2028, VT, FF; sinks handed over by &mut or by value inside BufWriter (8 KiB or 16 bytes)/LineWriter adapters that the callee owns. Round 5: surfaces starting with '#', '*', ';', '%', surfaces containing U+FFFD. distinct_nontrivial = distinct plan hashes of runs with >= 1 comparison",
             assumptions: vec![
                 "the tokenize command is mirrored (its MeCab-mode print loop), not executed",
                 "sentences and features contain no tab or line-break characters (the statement's precondition)",
